@@ -48,7 +48,7 @@ template<int C1, int R1, int C2, class T> void mm_one(M<C1, R1, T> const& a, M<C
 template<int C1, int R1, int C2, class T> void mm_all() {
     for (int i = 0; i < C1 * R1; ++i) for (int j = 0; j < C2 * C1; ++j) mm_one<C1, R1, C2, T>(basis<C1, R1, T>(i, 3), basis<C2, C1, T>(j, 5));
     for (int s = 0; s < (g_thorough ? 24 : 5); ++s) { mm_one<C1, R1, C2, T>(dense<C1, R1, T>(s), dense<C2, C1, T>(s + 11)); mm_one<C1, R1, C2, T>(fractional<C1, R1, T>(s), fractional<C2, C1, T>(s + 4)); }
-    for (int s = 0; s < (g_thorough ? 200 : 12); ++s) mm_one<C1, R1, C2, T>(randomm<C1, R1, T>(), randomm<C2, C1, T>());
+    for (int s = 0; s < (g_thorough ? 200 : 12); ++s) { auto ra = randomm<C1, R1, T>(); auto rb = randomm<C2, C1, T>(); mm_one<C1, R1, C2, T>(ra, rb); }   // operands bound first: argument evaluation order is unspecified
 }
 template<int C, int R, class T> void mv_all() {
     auto mv = [](M<C, R, T> const& m, V<C, T> const& v) { V<R, T> r = m * v; EVM("mv", T).num("C", C).num("R", R).arg(m).arg(v).res(r).emit(); };
@@ -56,7 +56,7 @@ template<int C, int R, class T> void mv_all() {
     auto vm = [](V<R, T> const& v, M<C, R, T> const& m) { if constexpr (std::is_floating_point<T>::value) { V<C, T> r = v * m; EVM("vm", T).num("C", C).num("R", R).arg(v).arg(m).res(r).emit(); } };
     for (int i = 0; i < C * R; ++i) { for (int j = 0; j < C; ++j) mv(basis<C, R, T>(i, 3), vecb<C, T>(j)); for (int j = 0; j < R; ++j) vm(vecb<R, T>(j), basis<C, R, T>(i, 3)); }
     for (int s = 0; s < (g_thorough ? 30 : 6); ++s) { mv(dense<C, R, T>(s), vecd<C, T>(s)); vm(vecd<R, T>(s), dense<C, R, T>(s + 1)); mv(fractional<C, R, T>(s), vecd<C, T>(s + 2)); vm(vecd<R, T>(s + 5), fractional<C, R, T>(s)); }
-    for (int s = 0; s < (g_thorough ? 200 : 12); ++s) { mv(randomm<C, R, T>(), vecr<C, T>()); vm(vecr<R, T>(), randomm<C, R, T>()); }
+    for (int s = 0; s < (g_thorough ? 200 : 12); ++s) { auto m1 = randomm<C, R, T>(); auto v1 = vecr<C, T>(); mv(m1, v1); auto v2 = vecr<R, T>(); auto m2 = randomm<C, R, T>(); vm(v2, m2); }
     // aliasing: the result overwrites an operand
     for (int s = 0; s < 4; ++s) {
         if constexpr (C == R) { M<C, R, T> m = dense<C, R, T>(s); V<C, T> v = vecd<C, T>(s); V<C, T> v0 = v; v = m * v; EVM("mv", T).num("C", C).num("R", R).str("alias", "v=m*v").arg(m).arg(v0).res(v).emit();
